@@ -5,6 +5,7 @@ import (
 	"go/ast"
 	"go/token"
 	"go/types"
+	"os"
 	"regexp"
 	"strings"
 )
@@ -240,4 +241,197 @@ func nonceTakenAsGiven(c *Ctx, rule string, pfd *ast.FuncDecl) {
 	default:
 		c.ok(rule, key, c.pos(pfd.Pos()), "the text after the nonce- prefix is taken as given")
 	}
+}
+
+// nonceOnlyFromScriptSrc: C20.R14 — the nonce given to the reload script is the one the policy allows for SCRIPTS. On
+// every path on which the nonce parser returns something other than a constant, the directive's name was compared
+// with "script-src" and found equal. A nonce taken from another directive (style-src, default-src) makes the browser
+// refuse the reload script.
+func nonceOnlyFromScriptSrc(c *Ctx, rule string) {
+	p := c.pkg("cmd/templ/generatecmd/proxy")
+	info := p.TypesInfo
+	decls := map[types.Object]*ast.FuncDecl{}
+	for _, fd := range allFuncDecls(p) {
+		decls[info.Defs[fd.Name]] = fd
+	}
+	n := 0
+	for _, fd := range allFuncDecls(p) {
+		if fd.Body == nil || fd.Type.Results == nil || len(fd.Type.Results.List) != 1 {
+			continue
+		}
+		// the parser: returns a string and compares something with the constant "script-src"
+		if t := info.TypeOf(fd.Type.Results.List[0].Type); t == nil || !isStringType(t) {
+			continue
+		}
+		names := false
+		ast.Inspect(fd.Body, func(m ast.Node) bool {
+			if e, ok := m.(ast.Expr); ok {
+				if s, isC := constString(info, e); isC && s == "script-src" {
+					names = true
+				}
+			}
+			return true
+		})
+		if !names {
+			continue
+		}
+		n++
+		key := funcKey(p, fd) + "|nonce-from-script-src-only"
+		den := &denum{info: info, pkg: p.Types, inits: map[types.Object]ast.Expr{}, limit: 20000, loopsOnce: true, decls: decls, inlineVals: true}
+		den.finish(den.run(fd.Body.List, []dstate{{env: map[types.Object]ast.Expr{}}}))
+		if den.undecided != "" {
+			c.undec(rule, key, c.pos(fd.Pos()), fd.Name.Name+" contains "+den.undecided)
+			continue
+		}
+		bad, nret := "", 0
+		for _, pth := range den.paths {
+			if pth.Ret == nil {
+				continue
+			}
+			ret := explicitReturn(info, pth.Ret)
+			if len(ret.Results) != 1 {
+				continue
+			}
+			r := den.expand(ret.Results[0], pth.Env)
+			if tv, ok := info.Types[ast.Unparen(r)]; ok && tv.Value != nil {
+				continue
+			}
+			if cs, isC := constString(info, den.deref(ret.Results[0], pth.Env)); isC && cs == "" {
+				continue
+			}
+			// a named result nothing was assigned to on this path is still its zero value
+			if id, ok := ast.Unparen(ret.Results[0]).(*ast.Ident); ok {
+				if _, bound := pth.Env[info.ObjectOf(id)]; !bound {
+					isResult := false
+					for _, fl := range fd.Type.Results.List {
+						for _, nm := range fl.Names {
+							if info.Defs[nm] == info.ObjectOf(id) {
+								isResult = true
+							}
+						}
+					}
+					assignedOnPath := false
+					for _, st := range pth.Trace {
+						ast.Inspect(st, func(m ast.Node) bool {
+							if as, ok := m.(*ast.AssignStmt); ok {
+								for _, l := range as.Lhs {
+									if lid, ok := l.(*ast.Ident); ok && info.ObjectOf(lid) == info.ObjectOf(id) {
+										assignedOnPath = true
+									}
+								}
+							}
+							return true
+						})
+					}
+					if isResult && !assignedOnPath {
+						continue
+					}
+				}
+			}
+			nret++
+			isScriptSrc := false
+			for _, pc := range pth.Conds {
+				be, ok := ast.Unparen(pc.Expr).(*ast.BinaryExpr)
+				if !ok {
+					continue
+				}
+				for _, side := range []ast.Expr{be.X, be.Y} {
+					if s, isC := constString(info, side); isC && s == "script-src" {
+						if be.Op == token.EQL && pc.Val || be.Op == token.NEQ && !pc.Val {
+							isScriptSrc = true
+						}
+					}
+				}
+			}
+			if !isScriptSrc && bad == "" {
+				if os.Getenv("TEMPLVET_DEBUG") != "" {
+					fmt.Fprintf(os.Stderr, "DEBUG C20.R14 ret=%s deref=%s env=%v\n", types.ExprString(ret.Results[0]), types.ExprString(den.deref(ret.Results[0], pth.Env)), len(pth.Env))
+				}
+				var took []string
+				for _, pc := range pth.Conds {
+					took = append(took, fmt.Sprintf("%s=%v", types.ExprString(pc.Expr), pc.Val))
+				}
+				bad = strings.Join(took, ", ")
+			}
+		}
+		c.check(bad == "" && nret > 0, rule, key, c.pos(fd.Pos()), fmt.Sprintf("%d path(s) return a nonce, each for a directive found equal to script-src", nret),
+			fmt.Sprintf("%s returns a nonce on a path that did not establish that the directive is script-src (%s): a nonce of style-src or default-src is put on the reload script, and the browser's script policy refuses it", fd.Name.Name, bad))
+	}
+	if n == 0 {
+		c.viol(rule, "anchor-lost:nonce-parser", "", "no function that returns a string and names the script-src directive was found in the proxy")
+	}
+}
+
+// bodyMatcherTestsElementType: C20.R15 — the node the reload script is appended to is an ELEMENT called body. Every path
+// on which the matcher built by htmlfind.Element answers true has tested the node's Type against html.ElementNode:
+// text and comment nodes keep their text in the same Data field, so a <title>body</title> or a <!--body--> before the
+// body element would otherwise be taken for it, and the script would be appended to a text node and never rendered.
+func bodyMatcherTestsElementType(c *Ctx, rule string) {
+	c.load("./internal/htmlfind")
+	p := c.pkg("internal/htmlfind")
+	if p == nil {
+		c.viol(rule, "anchor-lost:htmlfind", "", "package internal/htmlfind not found")
+		return
+	}
+	info := p.TypesInfo
+	fd := findFunc(p, "", "Element")
+	if fd == nil || fd.Body == nil {
+		c.viol(rule, "anchor-lost:htmlfind.Element", "", "htmlfind.Element (used by the proxy to find the body) not found")
+		return
+	}
+	var lit *ast.FuncLit
+	ast.Inspect(fd.Body, func(m ast.Node) bool {
+		if fl, ok := m.(*ast.FuncLit); ok && lit == nil {
+			lit = fl
+		}
+		return true
+	})
+	key := funcKey(p, fd) + "|matches-elements-only"
+	if lit == nil {
+		c.undec(rule, key, c.pos(fd.Pos()), "Element does not return a function literal")
+		return
+	}
+	decls := map[types.Object]*ast.FuncDecl{}
+	for _, f := range allFuncDecls(p) {
+		decls[info.Defs[f.Name]] = f
+	}
+	den := &denum{info: info, pkg: p.Types, inits: map[types.Object]ast.Expr{}, limit: 20000, loopsOnce: true, decls: decls, inlineVals: true}
+	den.finish(den.run(lit.Body.List, []dstate{{env: map[types.Object]ast.Expr{}}}))
+	if den.undecided != "" {
+		c.undec(rule, key, c.pos(fd.Pos()), "the matcher contains "+den.undecided)
+		return
+	}
+	bad, ntrue := "", 0
+	for _, pth := range den.paths {
+		if pth.Ret == nil || len(pth.Ret.Results) != 1 {
+			continue
+		}
+		if id, ok := ast.Unparen(den.deref(pth.Ret.Results[0], pth.Env)).(*ast.Ident); !ok || id.Name != "true" {
+			continue
+		}
+		ntrue++
+		typed := false
+		for _, pc := range pth.Conds {
+			be, ok := ast.Unparen(pc.Expr).(*ast.BinaryExpr)
+			if !ok {
+				continue
+			}
+			for _, side := range []ast.Expr{be.X, be.Y} {
+				if se, ok := ast.Unparen(side).(*ast.SelectorExpr); ok && se.Sel.Name == "ElementNode" {
+					if be.Op == token.EQL && pc.Val || be.Op == token.NEQ && !pc.Val {
+						typed = true
+					}
+				}
+			}
+		}
+		if !typed && bad == "" {
+			var took []string
+			for _, pc := range pth.Conds {
+				took = append(took, fmt.Sprintf("%s=%v", types.ExprString(pc.Expr), pc.Val))
+			}
+			bad = strings.Join(took, ", ")
+		}
+	}
+	c.check(bad == "" && ntrue > 0, rule, key, c.pos(lit.Pos()), fmt.Sprintf("%d accepting path(s), each after n.Type == html.ElementNode", ntrue),
+		fmt.Sprintf("the matcher built by htmlfind.Element accepts a node on a path that did not test its Type (%s): a text or comment node whose text is `body` is taken for the body element, the reload script is appended to it and never rendered", bad))
 }
